@@ -4,7 +4,8 @@ violation).  Semantics are SQLite's for exactly these constructs:
 
   SELECT <cols> FROM events WHERE ( <conj> ) OR ( <conj> ) ... ORDER BY created_at DESC LIMIT n
   conj      := pred AND pred ...
-  pred      := events.id IN (blob, ...) | lower(hex(id)) LIKE 'p%' | kind IN (n, ...) | created_at >= n |
+  pred      := id IN (SELECT id FROM tags WHERE tagcond OR tagcond ... [GROUP BY id HAVING COUNT(*) = n]) |
+               events.id IN (blob, ...) | lower(hex(id)) LIKE 'p%' | kind IN (n, ...) | created_at >= n |
                created_at < n | false | id IN (SELECT id FROM tags WHERE name = 's' AND value IN ('s', ...)) |
                (pubkey IN (blob, ...) OR id IN (SELECT id FROM tags WHERE name = 's' AND value IN ('s', ...)))
   literals  := 'text' with '' for a quote, x'hex' blobs, decimal integers
@@ -140,6 +141,22 @@ class Parser:
         self.take("op", ")")
         return vals
 
+    def tagcond(self):
+        """name = 's' AND value IN ('s', ...), optionally parenthesised"""
+        paren = self.peek() == ("op", "(")
+        if paren:
+            self.take()
+        self.take("id", "name")
+        self.take("op", "=")
+        name = self.take("str")[1]
+        self.take("id", "and")
+        self.take("id", "value")
+        self.take("id", "in")
+        values = self.literal_list("str")
+        if paren:
+            self.take("op", ")")
+        return (name, values)
+
     def factor(self):
         tok = self.peek()
         if tok == ("op", "("):
@@ -165,15 +182,26 @@ class Parser:
                 self.take("id", "from")
                 self.take("id", "tags")
                 self.take("id", "where")
-                self.take("id", "name")
-                self.take("op", "=")
-                name = self.take("str")[1]
-                self.take("id", "and")
-                self.take("id", "value")
-                self.take("id", "in")
-                values = self.literal_list("str")
+                conds = [self.tagcond()]
+                while self.is_id("or"):
+                    self.take()
+                    conds.append(self.tagcond())
+                count = None
+                if self.is_id("group"):
+                    self.take()
+                    self.take("id", "by")
+                    self.take("id", "id")
+                    self.take("id", "having")
+                    self.take("id", "count")
+                    self.take("op", "(")
+                    self.take("op", "*")
+                    self.take("op", ")")
+                    self.take("op", "=")
+                    count = self.take("num")[1]
                 self.take("op", ")")
-                return ("tag", name, values)
+                if len(conds) == 1 and count is None:
+                    return ("tag", conds[0][0], conds[0][1])
+                return ("tagrows", conds, count)
             return ("blob_in", "pubkey" if word == "pubkey" else "id", self.literal_list("blob"))
         if word == "lower":
             self.take()
@@ -247,4 +275,17 @@ def evaluate(node, row, env):
             if n == name and v in values:
                 return True
         return False
+    if k == "tagrows":
+        # rows of this event in `tags` matching any of the (name, values) conditions; (id, name, value) is unique
+        n = 0
+        for (tn, tv) in row["tags"]:
+            hit = False
+            for (name, values) in node[1]:
+                if tn == _val(name, env) and tv in [_val(v, env) for v in values]:
+                    hit = True
+            if hit:
+                n += 1
+        if node[2] is None:
+            return n > 0
+        return n == node[2]
     raise Unsupported("node %r" % (node,))
